@@ -214,6 +214,20 @@ pub fn generate(seed: u64, thorough: bool, sink: &mut Sink) -> Vec<String> {
             format!("T:{},{}:{}", x, y, tn) },
         }
       };
+      // `+=` with a table on the right appends rows when the target holds a table too: not an op-assignment in
+      // the sense of this property. What the names hold is only believed (a failing statement defines nothing),
+      // so the source of a `+=` is checked against the statements themselves: a table literal, or a name that
+      // any earlier statement gave a table or a copy of such a name, makes it a plain assignment instead
+      let s = if let Some(rest) = s.strip_prefix("P:") {
+        let (tn, e) = rest.split_once(':').unwrap();
+        let mut tableish: Vec<String> = vec![];
+        for prev in &stmts {
+          let f: Vec<&str> = prev.splitn(4, ':').collect();
+          let (nm, ex) = match f[0] { "D" if f.len() == 4 => (f[2], f[3]), "A" if f.len() >= 3 => (f[1], &prev[prev.find(f[1]).unwrap() + f[1].len() + 1..]), _ => continue };
+          if ex.starts_with('T') || ((ex.starts_with('v') || ex.starts_with('c')) && tableish.iter().any(|t| t == &ex[1..])) { tableish.push(nm.to_string()); }
+        }
+        if e.starts_with('T') || ((e.starts_with('v') || e.starts_with('c')) && tableish.iter().any(|t| t == &e[1..])) { format!("A:{}:{}", tn, e) } else { s.clone() }
+      } else { s };
       sink.hit(&format!("stmt:{}", &s[..1]));
       stmts.push(s);
     }
